@@ -32,7 +32,7 @@ type c15Obs struct {
 }
 
 var c15Ops = []string{
-	"transport.receive", "transport.send",
+	"transport.receive", "transport.receive/slow-peer", "transport.send",
 	"channel.send-message", "channel.send-notification", "channel.send-request", "channel.send-response", "channel.process-command",
 	"client.establish/new-sent", "client.establish/choice-sent", "client.establish/tls-upgrade", "client.establish/auth-sent", "client.finish",
 	"server.establish/await-new", "server.establish/await-choice", "server.establish/tls-upgrade", "server.establish/await-auth",
@@ -45,6 +45,9 @@ func c15Applies(op, tr string) bool {
 	}
 	if op == "listener.accept" {
 		return tr == "inproc"
+	}
+	if op == "transport.receive/slow-peer" {
+		return tr == "tcp" // the peer writes raw bytes, one at a time
 	}
 	if strings.Contains(op, "choice") || strings.Contains(op, "await-choice") {
 		return tr != "inproc" // the in-process transport offers nothing to negotiate
@@ -156,6 +159,35 @@ func buildC15Rig(c *c15Case) (*c15Rig, string) {
 				_ = cl.Close()
 				_ = sv.Close()
 			}
+			_ = ct.Close()
+			_ = st.Close()
+		}
+	case c.Op == "transport.receive/slow-peer":
+		// the peer is in the middle of an envelope and writes it slowly: a byte every 700 ms, never a gap as long as the I/O poll
+		ct, st, cl, sv := newTransportPair(c.Transport, 4096)
+		stop := make(chan struct{})
+		var wg sync.WaitGroup
+		wg.Add(1)
+		go func() {
+			defer wg.Done()
+			frame := []byte(`{"id":"slow","type":"text/plain","content":"` + strings.Repeat("s", 400) + `"}` + "\n")
+			for i := range frame {
+				if _, err := sv.Write(frame[i : i+1]); err != nil {
+					return
+				}
+				select {
+				case <-stop:
+					return
+				case <-time.After(700 * time.Millisecond):
+				}
+			}
+		}()
+		rig.op = func(ctx context.Context) error { _, err := TReceive(ctx, ct); return err }
+		rig.release = func() {
+			close(stop)
+			_ = cl.Close()
+			_ = sv.Close()
+			wg.Wait()
 			_ = ct.Close()
 			_ = st.Close()
 		}
@@ -545,6 +577,9 @@ func TestC15(t *testing.T) {
 			c.Transport = "tcp-tls"
 			if c.Op == "listener.accept" {
 				c.Transport = "inproc"
+			}
+			if c.Op == "transport.receive/slow-peer" {
+				c.Transport = "tcp"
 			}
 		}
 		o := &Outcome{}
